@@ -59,7 +59,7 @@ PROPS["C14"] = simple(
     level_text="A terminal attribute machine replays every generated output: each content character must be displayed with exactly the flags of the "
                "style functions wrapped around it (colour: one of the wrapping colours, none if none), no attribute may be active at any newline "
                "or at the end of the string, and this must survive any sequence of layout operations. Sampled, not exhaustive.",
-    level_note="Trusted: kit/term and the expectation bookkeeping in harness/verifchk/c14. When two colours of the same plane are nested the statement gives no unique answer; either is accepted.",
+    level_note="Trusted: kit/term and the expectation bookkeeping in harness/verifchk/c14. When two colours of the same plane are nested, the one applied closest to the character (the innermost call) is expected, since both cannot be displayed.",
 )
 
 PROPS["C17"] = simple(
